@@ -152,6 +152,10 @@ impl<'a> WireFormat<'a> for SVCB<'a> {
     where
         Self: Sized,
     {
+        if *position + 2 > data.len() {
+            return Err(crate::SimpleDnsError::InsufficientData);
+        }
+
         let priority = u16::from_be_bytes(data[*position..*position + 2].try_into()?);
         *position += 2;
 
@@ -159,6 +163,10 @@ impl<'a> WireFormat<'a> for SVCB<'a> {
         let mut params = BTreeMap::new();
         let mut previous_key = -1;
         while *position < data.len() {
+            if *position + 4 > data.len() {
+                return Err(crate::SimpleDnsError::InsufficientData);
+            }
+
             let key = u16::from_be_bytes(data[*position..*position + 2].try_into()?);
             let value_length = usize::from(u16::from_be_bytes(
                 data[*position + 2..*position + 4].try_into()?,
@@ -167,6 +175,10 @@ impl<'a> WireFormat<'a> for SVCB<'a> {
                 return Err(crate::SimpleDnsError::InvalidDnsPacket);
             }
             previous_key = i32::from(key);
+            if *position + 4 + value_length > data.len() {
+                return Err(crate::SimpleDnsError::InsufficientData);
+            }
+
             params.insert(
                 key,
                 Cow::Borrowed(&data[*position + 4..*position + 4 + value_length]),
